@@ -2,7 +2,7 @@
 # Re-evaluates every stored seed against the current checks (scratch worktrees at /repo's HEAD).
 # usage: seedfinal.sh <seed-id>...   e.g. seedfinal.sh C01-1 C01-2
 export GOFLAGS=-mod=mod GOWORK=off GOPROXY=off GOSUMDB=off GOTOOLCHAIN=local
-declare -A EXTRA=( [C16-6]="C03" [C17-4]="C11" [C04-6]="C03" [C11-6]="C03" [C02-4]="C01" [C02-2]="C07" [C05-2]="C12" [C08-2]="C06" [C11-2]="C03" [C05-4]="C02" )
+declare -A EXTRA=( [C14-6]="C03" [C02-6]="C01" [C02-5]="C07" [C08-5]="C01" [C16-6]="C03" [C17-4]="C11" [C04-6]="C03" [C11-6]="C03" [C02-4]="C01" [C02-2]="C07" [C05-2]="C12" [C08-2]="C06" [C11-2]="C03" [C05-4]="C02" )
 H=$(git -C /repo rev-parse HEAD)
 for s in "$@"; do
   prop=${s%%-*}
